@@ -27,6 +27,62 @@ let show_tok t = match t with
   | None -> "ERR"
   | Some (k, None) -> "K " ^ show_str k ^ " NONE"
   | Some (k, Some v) -> "K " ^ show_str k ^ " V " ^ show_str v
+(* ---- typed records (live schemas from gen/C20_records.v) ---- *)
+let rec bits_of_pos p = match p with XH -> [true] | XO q -> false :: bits_of_pos q | XI q -> true :: bits_of_pos q
+let hex_of_n x = match x with
+  | N0 -> "0"
+  | Npos p ->
+    let rec groups bs = match bs with
+      | [] -> []
+      | _ -> let take k l = List.filteri (fun i _ -> i < k) l and drop k l = List.filteri (fun i _ -> i >= k) l in
+        let g = take 4 bs in
+        let v = List.fold_right (fun b acc -> 2 * acc + (if b then 1 else 0)) g 0 in
+        v :: groups (drop 4 bs) in
+    String.concat "" (List.rev_map (fun v -> Printf.sprintf "%x" v) (groups (bits_of_pos p)))
+let n_of_hex (s:string) : n =
+  let bits = ref [] in   (* LSB first *)
+  String.iter (fun c -> let v = hexval c in
+                bits := [v land 1 = 1; v land 2 = 2; v land 4 = 4; v land 8 = 8] @ !bits) s;
+  let rec strip_msb l = match l with [] -> [] | b :: r -> if b then l else strip_msb r in
+  let msb_first = strip_msb (List.rev !bits) in
+  match msb_first with
+  | [] -> N0
+  | _ :: rest -> Npos (List.fold_left (fun p b -> if b then XI p else XO p) XH rest)
+let cps_of (s:string) : n list =
+  if s = "" then [] else List.map (fun w -> n_of_int (int_of_string w)) (String.split_on_char ',' s)
+let parse_pval (w:string) : pval option =
+  let w = String.trim w in
+  if w = "-" then None else
+    let body = String.sub w 1 (String.length w - 1) in
+    match w.[0] with
+    | 'S' -> Some (VS (cps_of body))
+    | 'Z' -> Some (VZ (z_of_int (int_of_string body)))
+    | 'H' -> Some (VN (n_of_hex body))
+    | _ -> failwith "pval"
+let parse_fval (w:string) : fval option =
+  let w = String.trim w in
+  if w = "-" then None
+  else if String.length w >= 2 && w.[0] = 'R' then
+    let inner = String.sub w 2 (String.length w - 3) in
+    Some (R (List.map parse_pval (String.split_on_char '!' inner)))
+  else (match parse_pval w with Some v -> Some (P v) | None -> None)
+let show_pval (v : pval option) = match v with
+  | None -> "-"
+  | Some (VS s) -> "S" ^ show_str s
+  | Some (VZ z) -> "Z" ^ string_of_int (int_of_z z)
+  | Some (VN x) -> "H" ^ hex_of_n x
+let show_fval (v : fval option) = match v with
+  | None -> "-"
+  | Some (P p) -> show_pval (Some p)
+  | Some (R vs) -> "R[" ^ String.concat " ! " (List.map show_pval vs) ^ "]"
+let rest_after (line:string) (k:int) : string =
+  (* the text after the k-th space-separated word *)
+  let n = String.length line in
+  let rec skip i words = if words = 0 then i else
+      if i >= n then n else if line.[i] = ' ' then skip (i + 1) (words - 1) else skip (i + 1) words in
+  let i = skip 0 k in String.sub line i (n - i)
+let lines_of (s:string) : n list list =
+  List.map (fun l -> cps_of (String.trim l)) (String.split_on_char '/' s)
 let () =
   try
     while true do
@@ -78,6 +134,22 @@ let () =
       | "D" :: what :: cps ->
         let s = List.map n_of_int (ints_of_words cps) in
         print_endline (if (if what = "k" then key_ok s else val_ok s) then "1" else "0")
+      | "RW" :: which :: _ ->
+        let (name, sch) = List.nth live_schemas (int_of_string which) in
+        let r = List.map parse_fval (String.split_on_char ';' (rest_after line 2)) in
+        Printf.printf "dom=%b %s\n" (dom sch r) (String.concat " / " (List.map show_str (to_lines name sch r)))
+      | "RR" :: which :: _ ->
+        let (_, sch) = List.nth live_schemas (int_of_string which) in
+        (match from_lines sch (lines_of (rest_after line 2)) with
+         | None -> print_endline "ERR"
+         | Some (r, rem) -> Printf.printf "%s # %d\n" (String.concat " ; " (List.map show_fval r)) (List.length rem))
+      | ["I"; z] -> let t = int_to_text (z_of_int (int_of_string z)) in
+        Printf.printf "%s %s\n" (show_str t) (match int_of_text t with Some r -> string_of_int (int_of_z r) | None -> "ERR")
+      | ["U"; h] -> let t = uuid_to_text (n_of_hex h) in
+        Printf.printf "%s %s\n" (show_str t) (match uuid_of_text t with Some r -> hex_of_n r | None -> "ERR")
+      | ["X8"; h] -> let t = hex8_to_text (n_of_hex h) in
+        Printf.printf "%s %s\n" (show_str t) (match hex_of_text t with Some r -> hex_of_n r | None -> "ERR")
+      | "PI" :: cps -> (match int_of_text (cps_of (String.concat "" cps)) with Some r -> print_endline (string_of_int (int_of_z r)) | None -> print_endline "ERR")
       | _ -> print_endline "?"
     done
   with End_of_file -> ()
